@@ -289,6 +289,18 @@ def r05_mode_writer(ctx):
     rule = "R05.single-writer"
     rep.need_anchor(rule, "stores in set_mode")
     n_stores = 0
+    # set_mode may delegate parts of its work to private methods of the
+    # class that nothing else calls: they write on its behalf
+    parts = set()
+    for _ in range(4):
+        for g in cal.methods.values():
+            if g is sm or g in parts or not g.name.startswith("_") or \
+                    g.name.startswith("__"):
+                continue
+            callers = [q for q, e in res.callers_of(g.qual)]
+            if callers and all(q == sm.qual or q in {p_.qual for p_ in parts}
+                               for q in callers):
+                parts.add(g)
     for f in ctx.model.all_functions():
         for n in walk_no_nested(f.node):
             tgt = []
@@ -318,7 +330,7 @@ def r05_mode_writer(ctx):
                     continue
                 ts = ctx.types_in(f, t.value)
                 if "Calendar" in ts:
-                    if f is sm:
+                    if f is sm or f in parts:
                         n_stores += 1
                         rep.anchor(rule, "stores in set_mode")
                         continue
@@ -758,6 +770,19 @@ def r07_mode_table(ctx, props=P15_03):
                     "%s reads it: leap years are given the common-year "
                     "table there" % (attr, sorted(srcs - {sm.self_name}),
                                      sorted(set(reads[attr]))[:3]), props)
+                # ... reported at each reader too, so that every operation
+                # that reaches the reader is told
+                for q in sorted(set(reads[attr])):
+                    g = ctx.model.functions.get(q)
+                    if g is None:
+                        continue
+                    rep.violation(
+                        rule_l, ctx.fkey(g, None, "reads-derived:" + attr),
+                        g.loc(),
+                        "%s reads %s, which set_mode builds from %s - no "
+                        "leap-year source: leap years are given the "
+                        "common-year table" % (
+                            q, attr, sorted(srcs - {sm.self_name})), props)
             else:
                 rep.note(rule_l, "set_mode builds %s from %s (no leap-year "
                          "source); nothing reads the attribute, so no "
